@@ -10,7 +10,6 @@ REQUIRED = ["CifModel.C02_text_protocol", "CifModel.C02_fold_line_progress", "Ci
             "CifModel.C02_roundtrip_doc", "CifModel.C02_quoted_status", "CifModel.C02_output_units", "CifModel.C02_roundtrip_doc_instance", "CifModel.C02_roundtrip_doc_sample",
             "CifModel.C02_roundtrip_doc_nested",
             "CifModel.C02_key_refused_iff", "CifModel.C02_key_step_is_the_loop", "CifModel.C02_total_iff",
-            "CifModel.C02_presented_key_writable", "CifModel.C02_refused_key_unwritable",
             "CifModel.C02_key_first_line_accepted", "CifModel.C02_key_first_line_written", "CifModel.C02_key_boundary",
             "CifModel.C02_cr_refused", "CifModel.C02_disallowed_char_refused", "CifModel.C02_write_char_opening_tests",
             "CifModel.C02_success_implies_clean",
@@ -48,13 +47,20 @@ PARTIAL = [
     "false: no CR, only characters CIF 2.0 allows — the property's own precondition) cif_write (CIF 2.0) succeeds iff every table key the walk "
     "meets satisfies keyPresented, and returns CIF_DISALLOWED_VALUE iff it meets one that does not; keyPresented is a decidable predicate on "
     "the key alone (no CR; one line: length + 3 <= 2048 with one kind of quote missing, or length + 7 <= 2048 and triple-quotable; several "
-    "lines: no line > 2048, last + 3 < 2048, first + 3 <= 2048, triple-quotable) — the column an entry starts in never matters — and it "
-    "EQUALS the specification keyWritable (C02_refused_key_unwritable: exactly the keys that cannot be written are refused; the finding "
-    "F-key-first-line is repaired, regression instance C02_key_first_line_accepted / _written)",
+    "lines: no line > 2048, last + 3 < 2048, first + 3 <= 2048, triple-quotable) — the column an entry starts in never matters.  NOT "
+    "proved (review rB): that these are exactly the keys that 'cannot be written as a quoted or triple-quoted string' in the sense of an "
+    "INDEPENDENT specification — 'cannot be written' here is the writer's own criterion keyFits (Lemmas/WriterKeys.lean); keyWritable is that "
+    "criterion restated term for term (same Model.tripleOk), so C02_refused_key_unwritable / C02_presented_key_writable hold by unfolding and "
+    "were removed from REQUIRED; the equivalence with 'some admissible quoted / triple-quoted presentation of Spec/Lexical.lean, followed by its "
+    "colon, fits the lines' is open.  The finding F-key-first-line is repaired (regression instance C02_key_first_line_accepted / _written; the "
+    "implementation-level oracle's key_quotable, written from the syntax, is checked per generated case)",
     "clause 1 strengthened (repairs of F-cr-altered, F-disallowed-char-written): write_char refuses a text with a CR (CIF_DISALLOWED_VALUE) and, in "
     "CIF 2.0 mode, a text with a character cif_has_disallowed_chars rejects (CIF_DISALLOWED_CHAR) before anything else (C02_cr_refused, "
     "C02_disallowed_char_refused, C02_write_char_opening_tests); hence C02_success_implies_clean: success of cif_write alone implies that every "
-    "string, key and number text that reached write_char is CR-free and of allowed characters.  Not proved: that this (the library's own "
+    "string, key and number text that reached write_char is CR-free and of allowed characters.  Its conclusion containersW false is WEAKER than "
+    "containersClean false, the hypothesis of C02_total / C02_total_iff: containersW speaks only of texts that reach write_char (an unquoted number "
+    "text that fits a line is printed by write_uliteral and is not covered; containersClean asks cleanliness of every number text), so the two do "
+    "not form an iff 'succeeds <-> clean and all keys presented'.  Not proved: that this (the library's own "
     "character test) implies okUnits .cif2 of the lexical grammar — they differ in NUL (no C string holds one) and U+FEFF — so cifR's "
     "character conjunct is still a hypothesis of the round-trip theorems",
     "C02_roundtrip_doc_nl: the whole-document round trip (every policy, frames nested to any depth) needs only cifR (allowed characters, valid "
